@@ -905,9 +905,11 @@ Section Phases.
     Hypothesis Hflags : forall j f idx b, slot_of c pos j = SFile f idx b ->
          fl_damaged (get_fl (r_flags s) (j, cf_name f)) = false /\ fl_fixed (get_fl (r_flags s) (j, cf_name f)) = false.
 
-    Theorem check_step_quiet :
+    Theorem check_step_quiet_full :
       let s' := stripe_step hashf padz truncf bs nlev reduced newino now o c fs0 s pos in
-      r_tags s' = r_tags s /\ r_err s' = r_err s /\ r_rec s' = r_rec s /\ r_unrec s' = r_unrec s /\ r_fs s' = r_fs s /\ r_par s' = r_par s.
+      r_tags s' = r_tags s /\ r_err s' = r_err s /\ r_rec s' = r_rec s /\ r_unrec s' = r_unrec s /\ r_fs s' = r_fs s /\ r_par s' = r_par s
+      /\ (forall k, fl_damaged (get_fl (r_flags s') k) = fl_damaged (get_fl (r_flags s) k)
+                    /\ fl_fixed (get_fl (r_flags s') k) = fl_fixed (get_fl (r_flags s) k)).
     Proof.
       pose proof (data_phase_inv o c pos s Hplain Hsync Hlenfs Hfile) as I.
       set (a := data_phase hashf bs newino now o c pos s) in *.
@@ -944,8 +946,13 @@ Section Phases.
         intros f idx b Hs. destruct (Hflags j f idx b Hs) as [H1 H2].
         unfold st0. cbn [r_flags rs_tag rs_setjn]. destruct (Cfl (j, cf_name f)) as [D1 [D2 _]]. rewrite D1, D2. auto. }
       rewrite Hfp. unfold st0. cbn. rewrite Itags, Et, Ierr, Ef, !app_nil_r. cbn [length].
-      repeat split; auto; try lia.
+      split; [reflexivity|]. split; [lia|]. split; [auto|]. split; [auto|]. split; [auto|]. split; [auto|].
+      intro k. destruct (Cfl k) as [D1 [D2 _]]. split; assumption.
     Qed.
+    Theorem check_step_quiet :
+      let s' := stripe_step hashf padz truncf bs nlev reduced newino now o c fs0 s pos in
+      r_tags s' = r_tags s /\ r_err s' = r_err s /\ r_rec s' = r_rec s /\ r_unrec s' = r_unrec s /\ r_fs s' = r_fs s /\ r_par s' = r_par s.
+    Proof. destruct check_step_quiet_full as [A [B [C [D [E [F _]]]]]]. repeat split; assumption. Qed.
   End NoAlarm.
 
   (* size and blocks of a file of the run state, 0 when the file is absent *)
